@@ -75,7 +75,7 @@ def run(tier, seed):
     def to_run(c, src, recs, k=0):
         argv = [mlr] + (["-n"] if c["n"] else MAIN_FLAGS[k % len(MAIN_FLAGS)]) + ["put"] + (["-q"] if c["q"] else []) + [src]
         stdin = "".join(",".join("%s=%s" % (k, v) for k, v in rec) + "\n" for rec in recs)
-        return {"argv": argv, "stdin": stdin, "timeout_ms": 10000}
+        return {"argv": argv, "stdin": stdin, "timeout_ms": 10000, "collect": "tee.out" in src}
     runs = [to_run(c, c["src"], c["recs"], k) for k, (fam, c) in enumerate(all_cases)]
     # law cases (family emitsnap) come with a cut-down program / record list whose output must be a prefix of the whole's
     law_idx = [i for i, (fam, c) in enumerate(all_cases) if c.get("src0")]
@@ -99,6 +99,8 @@ def run(tier, seed):
             out = [["fatal"]]
         else:
             out = parse_out(rr["stdout"])
+            # what a tee statement wrote to its file follows, as items ["t", record]
+            out += [["t", it[1]] for it in parse_out((rr.get("files") or {}).get("tee.out", "")) if it[0] == "r"]
         o = {"c": c["c"], "out": out}
         if i in res0:
             r0 = res0[i]
